@@ -214,14 +214,17 @@ fn threads(a: &[String]) {
     let mut backing = sim::mem::Slots::new();
     // systematically: every listed family gets a shared combined instance (the first one also one of
     // its halves, if it has any); then perhaps a random one
-    let mut wanted: Vec<(usize, Option<Role>)> = fam_idx.iter().map(|&f| (f, Some(Role::Both))).collect();
+    // every listed family: one combined instance nobody has used yet (first-use races) and one the main thread
+    // has already pushed close to a small block-count threshold (state built "after the Nth block")
+    let mut wanted: Vec<(usize, Option<Role>, usize)> = Vec::new();
+    for &f in &fam_idx {
+        wanted.push((f, Some(Role::Both), 0));
+        wanted.push((f, Some(Role::Both), *rng.pick(&[14usize, 15, 15, 16, 30, 31, 62, 63])));
+    }
     if reg.families[fam_idx[0]].split {
-        wanted.push((fam_idx[0], Some(*rng.pick(&[Role::Enc, Role::Dec]))));
+        wanted.push((fam_idx[0], Some(*rng.pick(&[Role::Enc, Role::Dec])), *rng.pick(&[0usize, 15])));
     }
-    if rng.chance(1, 2) {
-        wanted.push((*rng.pick(&fam_idx), None));
-    }
-    for (fam, want_role) in wanted {
+    for (fam, want_role, pre) in wanted {
         let f = &reg.families[fam];
         let vi = pick_variant(&mut rng, fam);
         let vs = &f.variants[vi];
@@ -241,6 +244,21 @@ fn threads(a: &[String]) {
         let p = backing.ptr(sl);
         if !guard(|| unsafe { (t.new_from_slice)(p, &key) }).unwrap_or(false) {
             continue;
+        }
+        // Sometimes the main thread has already used the instance for a number of blocks before the workers
+        // start (0, 1, or just below / at / above 16 and 32): state that an instance builds up after its Nth
+        // block is then built while several threads are inside it.
+        if pre > 0 {
+            let dir = match t.role { Role::Enc => Dir::Enc, Role::Dec => Dir::Dec, Role::Both => *rng.pick(&[Dir::Enc, Dir::Dec]) };
+            let data = rng.bytes(pre * t.block);
+            let want = expect(fam, &key, dir, &data);
+            match call_shape(t, p, dir, Shape::Blocks, &data) {
+                Ok(got) if got == want => {}
+                other => {
+                    println!("RESULT violation C15 single-threaded pre-use of {} ({} blocks) disagrees with the model: {:?}", t.name, pre, other.err());
+                    std::process::exit(1);
+                }
+            }
         }
         shared.push(SharedInst { ty, ptr: p, key, fam });
     }
